@@ -205,6 +205,20 @@ def rewrites(ctx, tmpdir):
         except Exception as e:  # noqa
             ctx.violate(case, "saving over an existing file raised", {**sig, "err": err_name(e)}, observed=f"{type(e).__name__}: {e}")
             continue
+        if target != "same-bytesio" and rng.random() < 0.6:
+            # the consumer edits what it has read, in place, without saving; the path still holds the second graph
+            try:
+                for name, flds in (("lif", ("tau", "r", "v_leak", "v_threshold")), ("w", ("weight",))):
+                    for fld in flds:
+                        a = getattr(back.nodes[name], fld)
+                        if isinstance(a, np.ndarray) and a.ndim >= 1 and a.flags.writeable:
+                            a[...] = a * 0 + 1
+                back = nir.read(f)
+                ctx.count("reread_after_inplace_edit_of_result")
+            except Exception as e:  # noqa
+                ctx.violate(case, "re-reading a path after editing an earlier result raised", {**sig, "err": err_name(e)},
+                            observed=f"{type(e).__name__}: {e}")
+                continue
         for name, flds in (("lif", ("tau", "r", "v_leak", "v_threshold")), ("w", ("weight",))):
             for fld in flds:
                 want = np.asarray(getattr(second.nodes[name], fld)); got = np.asarray(getattr(back.nodes[name], fld))
@@ -244,9 +258,11 @@ def _run_main(ctx):
                 kw.append([f, arr_recipe(rng, sh, d, layout if len(sh) >= 1 else None, special, pattern)])
             if kind == "CubaLIF" and rng.random() < 0.6:
                 # an explicit input weight, in a dtype of its own, sometimes equal to the default value 1.0
-                wd = rng.choice(["<f8", "<f4", "<f2", "<c8", "<i8"])
+                vth_dt = next(v["a"] for k_, v in kw if k_ == "v_threshold")
+                wd = rng.choice(["<f8", "<f4", "<f2", "<c8", "<i8", vth_dt, vth_dt])
                 wsh = list(shapes["v_threshold"])
-                kw.append(["w_in", arr_recipe(rng, wsh, wd, None, False, rng.choice(["ones", "ones", None]))])
+                # (uniform weights - all ones, all zeros, zeros of mixed sign - are tensors like any other)
+                kw.append(["w_in", arr_recipe(rng, wsh, wd, None, False, rng.choice(["ones", "ones", None, "signed_zeros", "zeros", "signed_zeros"]))])
             if kind == "Conv1d":
                 kw += [["input_shape", None], ["stride", gen.pyint(1)], ["padding", gen.pyint(0)], ["dilation", gen.pyint(1)], ["groups", gen.pyint(1)]]
             if kind == "Conv2d":
@@ -299,6 +315,49 @@ def _run_main(ctx):
                                 observed={"dtype": str(a.dtype), "shape": list(a.shape)},
                                 required={"dtype": str(d0), "shape": list(s0)})
                     break
+        # directed: CubaLIF input weights that are "uniform" to a value comparison but not bit for bit (zeros of mixed sign),
+        # or uniform outright, in the parameters' own dtype and shape - tensors like any other
+        import nir
+        for wdt in ("<f8", "<f4", "<f2", "<c16"):
+            for pat in ("signed_zeros", "zeros", "ones"):
+                sh = [rng.randrange(2, 4)] + ([rng.randrange(1, 3)] if rng.random() < 0.5 else [])
+                n = int(np.prod(sh))
+                pdt = wdt if wdt != "<c16" else "<f8"
+                prm = lambda: np.frombuffer(bytes.fromhex(arr_recipe(rng, sh, pdt, None, False, None)["x"]), dtype=pdt).reshape(sh).copy()
+                w = np.frombuffer(bytes.fromhex(arr_recipe(rng, sh, wdt, None, False, pat)["x"]), dtype=wdt).reshape(sh).copy()
+                if pat == "signed_zeros":
+                    flat = w.reshape(-1)
+                    flat[0] = 0.0; flat[-1] = -0.0            # mixed signs, whichever element comes first
+                case = {"op": "bits_cuba_uniform_w_in", "dtype": wdt, "pattern": pat, "shape": sh}
+                ctx.case(case); ctx.count("cuba_uniform_w_in")
+                try:
+                    vth = np.nan_to_num(np.abs(prm()), nan=1.0, posinf=1.0, neginf=1.0) + 1
+                    node = nir.CubaLIF(tau_syn=np.nan_to_num(prm(), nan=1.0, posinf=1.0, neginf=1.0), tau_mem=np.nan_to_num(prm(), nan=1.0, posinf=1.0, neginf=1.0),
+                                       r=np.nan_to_num(prm(), nan=1.0, posinf=1.0, neginf=1.0), v_leak=np.nan_to_num(prm(), nan=1.0, posinf=1.0, neginf=1.0),
+                                       v_threshold=vth.astype(pdt), w_in=w.astype(pdt) if (wdt != "<c16" and rng.random() < 0.7) else w)
+                except Exception:
+                    ctx.count("construct_rejected"); continue
+                want = np.asarray(node.w_in)
+                b0 = (want.dtype, want.shape, np.ascontiguousarray(want).tobytes())
+                for how in ("file", "dict"):
+                    try:
+                        g0 = nir.NIRGraph(nodes={"n": node}, edges=[])
+                        if how == "file":
+                            status, res = roundtrip(g0, rng.choice(["str", "bytesio"]), tmpdir)
+                            if status != "ok":
+                                continue
+                        else:
+                            res = nir.NIRGraph.from_dict(g0.to_dict())
+                        a = np.asarray(res.nodes["n"].w_in)
+                    except Exception as e:  # noqa
+                        ctx.violate(case, f"CubaLIF with a uniform input weight: {how} round trip raised", {"site": "roundtrip", "what": "raised"},
+                                    observed=err_name(e)); break
+                    if (a.dtype, a.shape, np.ascontiguousarray(a).tobytes()) != b0:
+                        ctx.violate(case, f"array parameter CubaLIF.w_in not read back bit-for-bit ({how} round trip; uniform weights)",
+                                    {"site": "roundtrip", "what": "bytes", "rank0": False, "kind_class": want.dtype.kind},
+                                    observed={"dtype": str(a.dtype), "first": a.reshape(-1)[:4].tolist()},
+                                    required={"dtype": str(want.dtype), "first": want.reshape(-1)[:4].tolist()})
+                        break
         big_and_twins(ctx, tmpdir)
         rewrites(ctx, tmpdir)
         ctx.compare("files", cases, obs, reqs)
